@@ -82,6 +82,51 @@ CHECKS = {
         technique='SMT translation validation of emitted JavaScript (symbolic path evaluation), node get-put replay',
         design='§4 C11',
     ),
+    'C05': dict(
+        engine='J+K', category='translation_validation',
+        text='Translation validation of scope resolution: templates with nested wx:for (default / renamed / colliding variables), slot: values on elements and '
+             'blocks, wxs modules, siblings and following nodes and <template name> bodies are compiled; per binding site (identifiers placed at every kind of '
+             'position: holes, spreads, call arguments, object values, index expressions, branches) z3 decides generated value term == lexically resolved '
+             'reference term for all data and scope values.  Kani proves on the compiled code that sub_expressions()/sub_expressions_mut() - the traversal '
+             'convert_scopes relies on - yield every child of all 44 expression forms (literals with symbolic field kinds) and that convert_scopes on a leaf '
+             'picks the innermost matching scope.',
+        note='Trusted: jssym interpreter; the model builder of checks/c05.py (lexical scoping rules = the property statement). Kani: unwinding assertions on, cover points as vacuity '
+             'guards, no stubs; bounded to 2-field (thorough: 3-field) literals and a 3-deep scope stack over two names.',
+        technique='SMT translation validation of emitted JavaScript + Kani (CBMC) harnesses on the compiled traversal',
+        design='§4 C05',
+    ),
+    'C07': dict(
+        engine='J+K', category='translation_validation',
+        text='For every template of the family and every advertised binding-map field: the field is read only at plain sites outside wx:if / wx:for / template / '
+             'slot subtrees and not structurally (comparison of the real A={...} with the template model); its registered updaters are exactly the sites that read it '
+             '(no hole, none missing); and each updater, executed symbolically, performs the same setter call with the same value as the creation code - decided '
+             'by z3 for all data.  Kani (shared with C05): the traversal used by collect/disable_binding_map_keys visits every child expression.',
+        note='Trusted: jssym interpreter and the template model of checks/c07.py.  Content of component children carrying slot: values is treated as reachable (whether it is '
+             'instantiated more than once is decided by the TypeScript runtime, which cannot run here).',
+        technique='SMT translation validation of emitted JavaScript (updaters vs creation) + Kani harnesses',
+        design='§4 C07',
+    ),
+    'C15': dict(
+        engine='K+M', category='model_checking',
+        text='Locations of diagnostics: Kani proves one inductive step of the position invariant (cursor on a char boundary, never backwards, (line, utf16 col) = '
+             'recomputation from the consumed text, restored by a failing try_parse) for the ParseState primitives from an arbitrary state, and that Position ordering is '
+             'lexicographic for all u32 values; engine M executes ParseErrorKind::level with a symbolic kind: every kind has a level and the structural defects the '
+             'property names keep at least their documented level.  "Clean input is clean / each injected defect is flagged" needs whole-parser runs and is outside.',
+        note='Bound: <= 4 arbitrary UTF-8 bytes per state (skip_bytes: "<newline|a><any scalar>"); unwinding assertions on; cover points; stub core::str::slice_error_fail -> panic. '
+             'Assumes the position fields are written only by the covered primitives (they are private to parse/mod.rs).',
+        technique='Kani (CBMC) bounded model checking of the compiled primitives + MIR symbolic execution of the level table',
+        design='§4 C15',
+    ),
+    'C16': dict(
+        engine='K+M', category='model_checking',
+        text='Position bookkeeping: Kani proves one inductive step of the position invariant for next, skip_whitespace, consume_str, skip_bytes (over a line break followed '
+             'by ANY scalar value, incl. astral), try_parse (thorough: next_char_as_str, skip_until_after) from an arbitrary state - so line / UTF-16 column are right along '
+             'every parser path of any length; engine M shows that the location stored by parse_number is [cursor at entry, cursor at return) on every path.  Location '
+             'nesting across a template, the stringifier and source-map tokens are not decided.',
+        note='Bound: <= 4 arbitrary UTF-8 bytes per state; literals <= 7 (10) chars.  Kani cannot build a Stringifier (sourcemap builder reaches an unmodelled syscall).',
+        technique='Kani (CBMC) bounded model checking + MIR symbolic execution',
+        design='§4 C16',
+    ),
     'C08': dict(
         engine='M', category='other',
         text='Routine-level bounded check of token conservation and meaningful whitespace: the MIR of convert_class_names_and_rpx_in_block, '
